@@ -97,6 +97,7 @@ def check(ctx):
     ctx.trust("sorted raises TypeError iff some key comparison does; tuples compare lexicographically; str/int/float/bool/bytes are totally ordered within their type")
     # ---------------------------------------------------------------- R1
     sites = sort_sites(m)
+    evaluated_ok = ctx.run(rule_scope_ordering_evaluated, "C20.R1") or set()
     n_scope = 0
     for f, c in sites:
         key = arg(c, None, "key")
@@ -105,6 +106,9 @@ def check(ctx):
             ctx.ob("C20.R1", f"{f.short}/non-scope-ordering", True, loc(f, c), "ordering of numbers/strings only", norm(c)[:80])
             continue
         if key is None and not scope_derived(m, f, c):
+            if any(f is g_ or f in m.reachable([g_], kinds=("call",)) for g_ in evaluated_ok):
+                n_scope += 1
+                continue  # a helper below the shared scope ordering, which was decided by evaluation on adversarial scope values
             raise AnalysisError(f"{f.qualname}: ordering `{norm(c)[:60]}` without key over elements of unknown kind")
         n_scope += 1
         if key is None:
@@ -675,3 +679,69 @@ def rule_exception_formatting_guarded(ctx, rid):
                    f"`{norm(c)[:60]}` is not guarded: an exception the traceback module cannot format (a SyntaxError whose text is not a str, "
                    f"a broken __str__) raises inside the render step - the update thread ends and nothing is rendered any more", norm(c)[:100])
     ctx.floor(rid, "formattings of recorded exceptions in the progress package", n, 1)
+
+
+
+# ------------------------------------------------------------------------------------------------ C20.R1 (evaluated)
+class _ScopeValue:
+    """A scope value that is hashable and equatable (by identity) and whose ordering comparisons raise `exc` (None: not orderable
+    in the ordinary way - TypeError); str() gives `text`."""
+
+    def __init__(self, text, exc="TypeError"):
+        self.text, self.exc = text, exc
+
+    def _cmp(self, other):
+        from ..absval import AbsRaise
+        raise AbsRaise(f"{self.exc}: '<' not supported between scope values")
+    __lt__ = __gt__ = __le__ = __ge__ = _cmp
+
+    def __str__(self):
+        return self.text
+
+    def __repr__(self):
+        return f"<{self.text}>"
+
+
+def rule_scope_ordering_evaluated(ctx, rid):
+    """The function through which the displays order scopes, evaluated on scope dictionaries whose values are only hashable and
+    equatable: comparisons raising TypeError, comparisons raising ArithmeticError (Decimal('NaN')), two distinct unorderable values
+    that print alike (so that a total text key ties), mixed types, different lengths.  It must return every item and never raise.
+    -> the set of functions decided this way."""
+    from ..absval import AbsRaise, Interp, Obj
+    m = ctx.model
+    sites = sort_sites(m)
+    cands = {f for f, c in sites if f.cls is None and f.parent is None and len(f.pos_params) == 1}
+    users = {}
+    for g in cands:
+        users[g] = [f for f in m.funcs.values() if f.module.name.startswith("uberjob.progress") and f is not g
+                    and any(g in m.callee_funcs(f, c) for c in f.own_calls())]
+    shared = [g for g in cands if len(users[g]) >= 2]
+    # a helper of the shared function is not the role itself
+    shared = [g for g in shared if not any(g in m.reachable([h], kinds=("call",)) for h in shared if h is not g)]
+    if len(shared) != 1:
+        raise AnalysisError(f"role SCOPEORDER: expected one function through which the displays order scopes, found {sorted(g.qualname for g in shared)}")
+    g = shared[0]
+    cases = {
+        "two values of one type whose comparison raises TypeError": [(_ScopeValue("u1"),), (_ScopeValue("u2"),)],
+        "two values whose comparison raises ArithmeticError (Decimal('NaN'))": [(_ScopeValue("NaN", "ArithmeticError"),), (_ScopeValue("1", "ArithmeticError"),)],
+        "two distinct unorderable values that print alike": [(_ScopeValue("same"),), (_ScopeValue("same"),)],
+        "unorderable values behind an equal first component": [("a", _ScopeValue("x")), ("a", _ScopeValue("y"))],
+        "mixed types": [(1,), ("a",), (None,), (2.5,)],
+        "different lengths": [("a", "b"), ("a",), ()],
+    }
+    bad = []
+    for label, scopes in cases.items():
+        d = {sc: Obj(None, {}, name=f"state{i}") for i, sc in enumerate(scopes)}
+        interp = Interp(m, ext={"builtins.type": lambda x: type(x), "builtins.str": lambda x="": str(x), "builtins.repr": lambda x: repr(x)})
+        try:
+            out = interp.call_func(g, None, [d], {})
+            items = interp.iterate(out)
+            if len(items) != len(scopes) or {id(k) for k, _v in items} != {id(k) for k in scopes}:
+                bad.append(f"{label}: returns {len(items)} of {len(scopes)} items")
+        except AbsRaise as e:
+            bad.append(f"{label}: raises {str(e.value)[:60]} - in the update thread, which then stops rendering")
+    ok = not bad
+    ctx.ob(rid, f"{g.short}/evaluated", ok, loc(g),
+           f"evaluated on {len(cases)} scope dictionaries with values that are merely hashable and equatable: every item comes back, nothing is raised" if ok
+           else "; ".join(bad[:2]))
+    return {g}
